@@ -185,3 +185,11 @@ func (v *Str) String() string {
 		return fmt.Sprintf("<atom %v>", v.Atom)
 	}
 }
+
+func (ex *Exec) widthOf(t types.Type) int {
+	w, _, ok := typeWidth(t)
+	if !ok {
+		ex.fail("no bit width for type %s", t)
+	}
+	return w
+}
